@@ -2497,3 +2497,26 @@ def exception_text_total(ctx, rule):
                             f'strategy itself fail -- the run thread dies in state STARTED (or step() leaks an unrelated exception) instead of continuing, pausing or ending',
                             where=f'{cname}.{m}')
     ctx.note(f'{rule}: {n} exception classes of the package examined')
+
+
+# ------------------------------------------------------------------------------------------------ an accepted stop / start takes effect
+def accepted_command_effect(ctx, rule):
+    """A stop() that was admitted (no DSOLError) has set the run state to STOPPING when it returns, a start / bounded run to STARTING --
+    on every normal path, whichever thread issued the command (`statrules.must_effects`: what the command certainly does, self / super
+    calls followed, nothing counted after a statement that may return early)."""
+    from .statrules import must_effects
+    prog = ctx.prog
+    ctx.rule(rule, 'an admitted stop() sets the run state to STOPPING, an admitted start / run_up_to* to STARTING, on every normal path')
+    for cmd, want in (('stop', 'STOPPING'), ('start', 'STARTING'), ('run_up_to', 'STARTING'), ('run_up_to_including', 'STARTING')):
+        r = prog.resolve(SIM, cmd)
+        if not r or r[1] is None:
+            raise AnalysisError(f'anchor vanished: {SIM}.{cmd}')
+        eff = must_effects(prog, SIM, cmd)
+        sets = [n for (k, f, n) in eff if k == 'set' and f == '_run_state' and isinstance(n, (ast.Assign, ast.AnnAssign))
+                and unparse(n.value).endswith('.' + want)]
+        ctx.ob(rule, f'{cmd}:{want}', bool(sets), sample=f'{cmd}() certainly sets the run state to {want}: {bool(sets)}')
+        if not sets:
+            ctx.finding(rule, f'{SIM}.{cmd}:no-effect', r[0], r[1],
+                        f'{cmd}() can return normally without having set the run state to {want} (an early return in front of the assignment, or the assignment on '
+                        f'one branch only): the command is accepted -- its notification may even be fired -- but has no effect, the run goes on as if nothing was asked',
+                        where=f'{SIM}.{cmd}')
